@@ -58,7 +58,7 @@ var goSrcFuncs = []string{
 	"Array.AsFloat", "Array.AsInteger", "Array.AsUint64",
 	"ParsedJson.get_current_loc", "ParsedJson.write_tape", "ParsedJson.writeTapeTagVal", "ParsedJson.writeTapeTagValFlags",
 	"ParsedJson.write_tape_s64", "ParsedJson.write_tape_double", "ParsedJson.annotate_previousloc", "parseString", "addNumber",
-	"min", "max", "fmtF", "appendFloatF", "appendFloat", "Serializer.indexString", "Object.FindKey", "Object.FindPath", "Iter.Object", "Iter.Array", "Iter.Root", "ParsedJson.stringAt", "Iter.String", "floatToString", "Iter.StringCvt", "Object.NextElement",
+	"min", "max", "fmtF", "appendFloatF", "appendFloat", "Serializer.indexString", "Object.FindKey", "Object.FindPath", "Iter.Object", "Iter.Array", "Iter.Root", "Iter.Root#self", "Iter.FindElement", "ParsedJson.stringAt", "Iter.String", "floatToString", "Iter.StringCvt", "Object.NextElement",
 }
 
 // functions in which constant expressions are folded (as the compiler does) before printing; the functions translated
@@ -170,6 +170,9 @@ type gsTr struct {
 	tapes  map[string]string // other tape slices by source text (`dst.Tape`) → base name
 	frees  map[string]gty    // free variables of a translated block by source text (`s.tagsBuf`)
 	rtys   []gty             // result types when translating a block of a function whose results are not all scalars
+	ptrParam map[string]bool // pointer-to-struct parameters of the function being translated (may be nil at entry)
+	ptrAlias map[string]string // pointer-valued locals that are nil or the address of a struct variable: name → that variable
+	ptrNil   []string        // per pointer argument of the call being translated: the expression "this argument is nil"
 	skipStmts []string       // expression statements left out wherever they occur (waits on goroutines)
 	arr8   map[string]bool   // locals declared as [8]byte
 }
@@ -435,6 +438,9 @@ func (t *gsTr) expr(e ast.Expr, want gty) (string, gty) {
 				return "(.bool true /- ErrPathNotFound -/)", tyErr // a package-level error value: non-nil
 			}
 		}
+		if x.Name == t.recv && t.recv != "" && want == tyPtr {
+			return fmt.Sprintf("(.bool true /- %s -/)", x.Name), tyPtr // the receiver itself: not nil
+		}
 		if t.kinds[x.Name] != "" && x.Name != t.recv && want == tyPtr {
 			// the pointer itself, as a result: nil or not
 			t.aliasParams[x.Name+"==nil"] = true
@@ -445,6 +451,9 @@ func (t *gsTr) expr(e ast.Expr, want gty) (string, gty) {
 				gsDie(e, "variable read after an inner scope shadowed it (one store slot per name)")
 			}
 			if ty == tyPtr {
+				if _, isAlias := t.ptrAlias[x.Name]; isAlias {
+					return fmt.Sprintf("(.v %s)", strconv.Quote(x.Name)), tyPtr // holds "non-nil"
+				}
 				return fmt.Sprintf("(.bool true /- %s -/)", x.Name), tyPtr
 			}
 			return fmt.Sprintf("(.v %s)", strconv.Quote(x.Name)), ty
@@ -1203,6 +1212,11 @@ func (t *gsTr) binary(x *ast.BinaryExpr, want gty) (string, gty) {
 		}
 	}
 	if isCmp && (x.Op == token.EQL || x.Op == token.NEQ) {
+		if id, ok := x.X.(*ast.Ident); ok && id.Name == t.recv && t.recv != "" {
+			if n, ok := x.Y.(*ast.Ident); ok && n.Name == "nil" {
+				return fmt.Sprintf("(.bool %v /- %s: a receiver that is being executed on is not nil -/)", x.Op == token.NEQ, nows(src(x))), tyBool
+			}
+		}
 		if id, ok := x.X.(*ast.Ident); ok && t.kinds[id.Name] != "" && id.Name != t.recv && !t.readonly[id.Name] {
 			if n, ok := x.Y.(*ast.Ident); ok && n.Name == "nil" {
 				// whether the caller passed nil: a named boolean input of the function (`dst = &Element{}` clears it)
@@ -1328,11 +1342,15 @@ func (t *gsTr) methodCall(call *ast.CallExpr) (recv, callee string, ptrs, args [
 	}
 	switch x := sel.X.(type) {
 	case *ast.Ident:
-		k := t.kinds[x.Name]
+		name := x.Name
+		if a, ok := t.ptrAlias[name]; ok {
+			name = a // nil or the address of that struct variable; a call through nil is outside the subset's guarantees
+		}
+		k := t.kinds[name]
 		if k == "" {
 			return
 		}
-		recv, callee = x.Name, k+"."+sel.Sel.Name
+		recv, callee = name, k+"."+sel.Sel.Name
 	case *ast.SelectorExpr:
 		id, isId := x.X.(*ast.Ident)
 		if !isId || x.Sel.Name != "tape" || t.kinds[id.Name] == "" || t.kinds[id.Name] == "ParsedJson" {
@@ -1390,6 +1408,7 @@ func (t *gsTr) callArgs(call *ast.CallExpr, recv, callee string) (string, string
 		}
 	}
 	k := 0
+	t.ptrNil = nil
 	for _, f := range cfd.Type.Params.List {
 		for range f.Names {
 			if k >= len(call.Args) {
@@ -1403,6 +1422,7 @@ func (t *gsTr) callArgs(call *ast.CallExpr, recv, callee string) (string, string
 					gsDie(a, "struct argument must be a %s variable", kind)
 				}
 				ptrs = append(ptrs, id.Name)
+				t.ptrNil = append(t.ptrNil, "(.bool false)")
 				continue
 			}
 			if kind, isPtr := ptrKind(f.Type); isPtr {
@@ -1413,6 +1433,7 @@ func (t *gsTr) callArgs(call *ast.CallExpr, recv, callee string) (string, string
 					// &e.Iter for an Element e: the struct variable `e.Iter`
 					if eid, ok := sx.X.(*ast.Ident); ok && t.kinds[eid.Name] == "Element" {
 						ptrs = append(ptrs, eid.Name+".Iter")
+						t.ptrNil = append(t.ptrNil, "(.bool false)")
 						continue
 					}
 				}
@@ -1421,6 +1442,12 @@ func (t *gsTr) callArgs(call *ast.CallExpr, recv, callee string) (string, string
 					gsDie(a, "pointer argument must be a %s variable", kind)
 				}
 				ptrs = append(ptrs, id.Name)
+				if _, isAddr := call.Args[k-1].(*ast.UnaryExpr); !isAddr && t.ptrParam[id.Name] {
+					// the caller's own pointer parameter, handed on: nil iff it was
+					t.ptrNil = append(t.ptrNil, "@"+id.Name)
+				} else {
+					t.ptrNil = append(t.ptrNil, "(.bool false)")
+				}
 				continue
 			}
 			pty := tyOfTypeExpr(f.Type)
@@ -1436,6 +1463,32 @@ func (t *gsTr) callArgs(call *ast.CallExpr, recv, callee string) (string, string
 	}
 	// hidden parameters: the callee compares its receiver with a pointer parameter
 	for _, hp := range goSrcAliasParams[callee] {
+		if pn := strings.TrimSuffix(hp, "==nil"); pn != hp {
+			// whether the pointer argument bound to <param> is nil
+			pi, val := 0, ""
+			for _, f := range cfd.Type.Params.List {
+				for _, nm := range f.Names {
+					_, isPtr := ptrKind(f.Type)
+					_, isVal := valKind(f.Type)
+					if isPtr || isVal {
+						if nm.Name == pn && pi < len(t.ptrNil) {
+							val = t.ptrNil[pi]
+							if own := strings.TrimPrefix(val, "@"); own != val {
+								t.aliasParams[own+"==nil"] = true
+								val = fmt.Sprintf("(.v %s)", strconv.Quote(own+"==nil"))
+							}
+							val += " /- " + hp + " -/"
+						}
+						pi++
+					}
+				}
+			}
+			if val == "" {
+				gsDie(call, "hidden parameter %s", hp)
+			}
+			args = append(args, val)
+			continue
+		}
 		// hp = "<recv><op><param>", e.g. "i!=dst": find the argument bound to <param>
 		if cfd.Recv == nil {
 			gsDie(call, "hidden parameter of a plain function")
@@ -1468,6 +1521,57 @@ func (t *gsTr) callArgs(call *ast.CallExpr, recv, callee string) (string, string
 		args = append(args, val)
 	}
 	return recv, callee, ptrs, args, funcResultTypes(cfd), true
+}
+
+// ptrResultParam: result k of fd is, at every return statement, `nil` or one and the same pointer parameter; the
+// position of that parameter among the pointer/struct parameters, or -1
+func ptrResultParam(fd *ast.FuncDecl, k int) int {
+	if fd == nil {
+		return -1
+	}
+	name := ""
+	okAll := true
+	ast.Inspect(fd.Body, func(n ast.Node) bool {
+		if _, isLit := n.(*ast.FuncLit); isLit {
+			return false
+		}
+		if r, ok := n.(*ast.ReturnStmt); ok {
+			if k >= len(r.Results) {
+				okAll = false
+				return true
+			}
+			id, isId := r.Results[k].(*ast.Ident)
+			if !isId {
+				okAll = false
+				return true
+			}
+			if id.Name == "nil" {
+				return true
+			}
+			if name != "" && name != id.Name {
+				okAll = false
+			}
+			name = id.Name
+		}
+		return true
+	})
+	if !okAll || name == "" {
+		return -1
+	}
+	pos := 0
+	for _, f := range fd.Type.Params.List {
+		for _, nm := range f.Names {
+			_, isPtr := ptrKind(f.Type)
+			_, isVal := valKind(f.Type)
+			if isPtr || isVal {
+				if nm.Name == name {
+					return pos
+				}
+				pos++
+			}
+		}
+	}
+	return -1
 }
 
 // goSrcAliasParams: per translated function, the pointer comparisons its body makes (filled while translating it;
@@ -1903,6 +2007,18 @@ func (t *gsTr) stmt0(s ast.Stmt, ind string) string {
 							if old, had := t.locals[id.Name]; had && old != rtys[k] {
 								gsDie(s, "variable redefined with another type")
 							}
+							if rtys[k] == tyPtr {
+								// the callee returns nil or one of its pointer parameters (checked on its source): the new
+								// name is nil or the address of the struct variable passed there; the variable holds "non-nil"
+								pos := ptrResultParam(t.p.funcs[callee], k)
+								if pos < 0 || pos >= len(ptrs) {
+									gsDie(s, "pointer result of %s is not nil-or-a-parameter", callee)
+								}
+								if t.ptrAlias == nil {
+									t.ptrAlias = map[string]string{}
+								}
+								t.ptrAlias[id.Name] = ptrs[pos]
+							}
 							t.locals[id.Name] = rtys[k]
 							targets = append(targets, id.Name)
 							continue
@@ -1995,6 +2111,9 @@ func (t *gsTr) stmt0(s ast.Stmt, ind string) string {
 					gsDie(s, "tape re-slice of another tape")
 				}
 				e, ty := t.expr(sl.High, tyInt)
+				if ty == tyU64 {
+					e, ty = "(.conv .int "+e+")", tyInt
+				}
 				if ty != tyInt {
 					gsDie(s, "slice bound type")
 				}
@@ -2088,6 +2207,21 @@ func (t *gsTr) stmt0(s ast.Stmt, ind string) string {
 		if x.Init != nil {
 			// the init statement runs first; what it defines is scoped to the `if` (the enclosing block's scope ends it)
 			pre = t.stmt(x.Init, ind) + ",\n" + ind
+		}
+		// if <receiver> == nil {A} else {B}: a receiver that is being executed on is not nil; A is dead (and, in a
+		// #self variant, may assign to the renamed parameter, which the subset has no form for)
+		if be, ok := x.Cond.(*ast.BinaryExpr); ok && be.Op == token.EQL && x.Init == nil && t.recv != "" {
+			if id, ok := be.X.(*ast.Ident); ok && id.Name == t.recv {
+				if n, ok := be.Y.(*ast.Ident); ok && n.Name == "nil" {
+					el := "[]"
+					if eb, ok := x.Else.(*ast.BlockStmt); ok {
+						el = t.block(eb.List, ind)
+					} else if x.Else != nil {
+						gsDie(s, "else shape")
+					}
+					return fmt.Sprintf(".ite (.bool false /- %s -/) [] %s", nows(src(x.Cond)), el)
+				}
+			}
 		}
 		// if !parseStringSimdValidateOnly(buf, &maxStringSize, &size, &needCopy) {B}: the kernel by contract
 		if ne, ok := x.Cond.(*ast.UnaryExpr); ok && ne.Op == token.NOT && x.Else == nil {
@@ -2238,6 +2372,13 @@ func (t *gsTr) stmt0(s ast.Stmt, ind string) string {
 				parts = append(parts, fmt.Sprintf(".assign %s %s", strconv.Quote(n+"."+f), zero))
 			}
 			return strings.Join(parts, ",\n"+ind)
+		}
+		if id, ok := vs.Type.(*ast.Ident); ok && (id.Name == "Object" || id.Name == "Array") {
+			n := vs.Names[0].Name
+			t.kinds[n] = id.Name
+			return strings.Join([]string{
+				fmt.Sprintf(".assign %s (.int 0)", strconv.Quote(n+".off")),
+				fmt.Sprintf(".assign %s (.int 0)", strconv.Quote(n+".lim"))}, ",\n"+ind)
 		}
 		if id, ok := vs.Type.(*ast.Ident); ok && id.Name == "Iter" {
 			// a zero Iter: no tape
@@ -2611,6 +2752,10 @@ func genGoSrc(p *pkgInfo, out string) {
 				}
 				if k, ok := ptrKind(f.Type); ok {
 					t.kinds[nm.Name] = k
+					if t.ptrParam == nil {
+						t.ptrParam = map[string]bool{}
+					}
+					t.ptrParam[nm.Name] = true
 					if k == "Iter" {
 						t.iters[nm.Name] = true
 					}
